@@ -39,8 +39,21 @@ def pad (n width : Nat) : String :=
   let s := toString n
   String.ofList (List.replicate (width - s.length) '0') ++ s
 
+/-- Python formats an `int` with an `e` presentation type by converting it to a double first:
+    integers beyond 2^53 are rounded (half to even) to 53 significant bits.  Every other number of
+    the model already is a double. -/
+def toDouble (q : Rat) : Rat :=
+  if q.den != 1 then q else
+  let a := q.num.natAbs
+  if a < 2 ^ 53 then q else
+  let e := a.log2 + 1 - 53
+  let m := roundHalfEven a (2 ^ e)
+  let r : Rat := ((m * 2 ^ e : Nat) : Rat)
+  if q.num < 0 then -r else r
+
 /-- `f"{q:.{d}e}"` -/
-def fmtE (d : Nat) (q : Rat) : String :=
+def fmtE (d : Nat) (q0 : Rat) : String :=
+  let q := toDouble q0
   if q == 0 then "0." ++ String.ofList (List.replicate d '0') ++ "e+00" else
   let neg := q < 0
   let a := q.num.natAbs
